@@ -5,10 +5,12 @@ import (
 	"fmt"
 	"runtime"
 	"strconv"
+	"strings"
 	"sync"
 	"sync/atomic"
 	"time"
 
+	"github.com/go-openapi/spec"
 	"github.com/go-openapi/strfmt"
 	"github.com/go-openapi/validate"
 
@@ -32,7 +34,7 @@ func init() {
 			"schemas shared between goroutines contain no $ref (in-place expansion is outside the property); instances and documents are per goroutine",
 			"in phase B the monitor's own atomics add happens-before edges and can hide a race: phase A exists for that reason",
 		},
-		quick: 8, thorough: 72,
+		quick: 9, thorough: 81,
 	}})
 }
 
@@ -45,8 +47,26 @@ func (p *c05) CaseTimeout(string) int   { return 1500 }
 var c05G = []int{2, 4, 8, 16, 32, 64}
 var c05Procs = []int{16, 4, 1, 2}
 
+// Every ninth configuration is the "id" configuration: the schema objects shared between the goroutines carry an
+// "id" (and still no $ref). It is kept apart from the others because it meets a recorded finding (the race detector
+// reports the in-place write of the reference expander), which is tolerated there and nowhere else.
+func c05IDConfig(idx int) bool { return idx%9 == 8 }
+
 func (p *c05) config(idx int) (int, int) {
+	if c05IDConfig(idx) {
+		return 8, 16
+	}
+	idx -= idx / 9
 	return c05G[idx%len(c05G)], c05Procs[(idx+idx/len(c05G))%len(c05Procs)]
+}
+
+// KnownRace attributes a race report to a recorded finding: only in the "id" configuration, and only when one of the
+// two accesses is the write-back of the reference expander (spec.ExpandSchemaWithBasePath: *schema = *s).
+func (p *c05) KnownRace(tier string, rb lib.RaceReport) string {
+	if c05IDConfig(rb.From) && strings.Contains(rb.Text, "go-openapi/spec.ExpandSchemaWithBasePath") {
+		return "schema-id-inplace-expansion-race"
+	}
+	return ""
 }
 
 func (p *c05) ChildEnv(tier string, from int) []string {
@@ -58,7 +78,8 @@ type c05Call struct {
 	kind string // op | shared | helper
 	op   *hist.Op
 	inst []byte // shared validator
-	which int   // which shared validator
+	which int   // which shared validator / shared schema object
+	oneShot bool // shared schema object: through AgainstSchema (else through a recycling validator object)
 	val   any   // value for the shared parameter / header validator
 	pat  string // helper
 	data string
@@ -96,6 +117,24 @@ func (p *c05) Run(w *lib.Worker, idx int, r *lib.Rand) lib.Case {
 		default:
 			return 2, []byte(c05DirectedInstances[rg.Intn(len(c05DirectedInstances))])
 		}
+	}
+	// schema OBJECTS shared by every goroutine ($ref-free, decoded once): each goroutine hands them to the one-shot
+	// entry point and builds its own recycling validators from them
+	idCfg := c05IDConfig(idx)
+	var sharedObjs []*spec.Schema
+	var sharedObjDocs []map[string]any
+	var sharedObjGens []*gen.SchemaGen
+	for k := 0; k < 4; k++ {
+		og := &gen.SchemaGen{R: r.Fork(), O: gen.SchemaOpts{MaxDepth: 3, Refs: false, SpecialNames: true, Defaults: k%2 == 1}}
+		od := og.Document()
+		if idCfg {
+			od["id"] = fmt.Sprintf("http://example.com/shared-%d.json", k)
+		}
+		so, _ := sut.Schema(gen.JSON(od))
+		sharedObjs, sharedObjDocs, sharedObjGens = append(sharedObjs, so), append(sharedObjDocs, od), append(sharedObjGens, og)
+	}
+	if idCfg {
+		c.Tags = append(c.Tags, "shared-schema-objects-carry-id")
 	}
 	max3, min1 := 3.0, int64(1)
 	gridDef := &model.SimpleDef{Type: "array", Items: &model.SimpleDef{Type: "array", MinItems: &min1, Items: &model.SimpleDef{Type: "integer", Maximum: &max3, Enum: []any{1.0, 2.0, 3.0, 9.0}}}}
@@ -136,6 +175,9 @@ func (p *c05) Run(w *lib.Worker, idx int, r *lib.Rand) lib.Case {
 			}
 			perG[gi] = append(perG[gi], &c05Call{kind: "op", op: op})
 			switch rg.Intn(5) {
+			case 2:
+				k := rg.Intn(len(sharedObjs))
+				perG[gi] = append(perG[gi], &c05Call{kind: "shared-schema", which: k, oneShot: rg.Bool(), inst: gen.JSON(sharedObjGens[k].Instance(sharedObjDocs[k], sharedObjDocs[k], 0, 0.3))})
 			case 0:
 				if rg.P(0.3) {
 					perG[gi] = append(perG[gi], &c05Call{kind: "shared-simple", which: rg.Intn(2), val: grids[rg.Intn(len(grids))]})
@@ -164,6 +206,14 @@ func (p *c05) Run(w *lib.Worker, idx int, r *lib.Rand) lib.Case {
 			return sut.Guard(func() sut.Outcome {
 				v, _ := sut.Value(cl.inst)
 				return sut.FromResult(sharedSchemas[cl.which].Validate(v))
+			}).Key()
+		case "shared-schema":
+			return sut.Guard(func() sut.Outcome {
+				v, _ := sut.Value(cl.inst)
+				if cl.oneShot {
+					return sut.FromError(validate.AgainstSchema(sharedObjs[cl.which], v, strfmt.Default))
+				}
+				return sut.FromResult(validate.NewSchemaValidator(sharedObjs[cl.which], nil, "", strfmt.Default, validate.WithRecycleValidators(true)).Validate(v))
 			}).Key()
 		case "shared-simple":
 			return sut.Guard(func() sut.Outcome {
@@ -302,6 +352,8 @@ func renderCall(cl *c05Call) any {
 		return cl.op.Render()
 	case "shared":
 		return map[string]any{"kind": "shared-validator", "which": cl.which, "instance": string(cl.inst)}
+	case "shared-schema":
+		return map[string]any{"kind": "shared-schema-object", "which": cl.which, "one_shot": cl.oneShot, "instance": string(cl.inst)}
 	case "shared-simple":
 		return map[string]any{"kind": "shared-parameter-or-header-validator", "which": cl.which, "value": fmt.Sprintf("%#v", cl.val)}
 	default:
